@@ -199,6 +199,18 @@ class ModeStatistics:
                 n_cluster, size=n_resample, replace=True, p=weights_cluster
             )
             u_resampled = u_cluster[idx_resample]
+            if (
+                n_modes is not None
+                and len(idx_cluster) < len(u)
+                and len(np.unique(u_resampled, axis=0)) <= u.shape[1]
+            ):
+                # The weighted resample of a small cluster collapsed onto too few
+                # distinct particles (one of them carries almost all of its weight):
+                # treat it like a degenerate cluster and use all particles
+                idx_resample = np.random.choice(
+                    len(u), size=len(u) * resample_factor, replace=True, p=weights
+                )
+                u_resampled = u[idx_resample]
 
             # Fit multivariate Student-t distribution
             mean, covariance, dof = fit_mvstud(u_resampled)
